@@ -605,6 +605,9 @@ pub struct OdsBook {
     pub encrypted: bool,
     /// store `content.xml` uncompressed
     pub stored: bool,
+    /// encoding `content.xml` declares and is written in: `None` = UTF-8; `Some("ISO-8859-1")` /
+    /// `Some("windows-1252")` (both are windows-1252 for an encoding-aware XML reader) — see `encode_single_byte`
+    pub encoding: Option<&'static str>,
 }
 
 const NS: &str = "xmlns:office=\"urn:oasis:names:tc:opendocument:xmlns:office:1.0\" \
@@ -629,7 +632,7 @@ impl OdsBook {
     }
     pub fn content_xml(&self) -> String {
         let mut x = String::new();
-        x.push_str("<?xml version=\"1.0\" encoding=\"UTF-8\"?>");
+        x.push_str(&format!("<?xml version=\"1.0\" encoding=\"{}\"?>", self.encoding.unwrap_or("UTF-8")));
         x.push_str(&format!("<office:document-content {NS} office:version=\"1.2\">"));
         x.push_str("<office:automatic-styles>");
         for (i, s) in self.sheets.iter().enumerate() {
@@ -709,13 +712,54 @@ impl OdsBook {
         m
     }
     /// the `.ods` file
-    pub fn to_bytes(&self) -> Vec<u8> {
-        zip_parts(&self.manifest_xml(), &self.content_xml(), self.stored)
+    /// the bytes of `content.xml`: the text of `content_xml()` in the declared encoding
+    pub fn content_bytes(&self) -> Vec<u8> {
+        match self.encoding {
+            None => self.content_xml().into_bytes(),
+            Some(_) => encode_single_byte(&self.content_xml()),
+        }
     }
+    pub fn to_bytes(&self) -> Vec<u8> {
+        zip_parts_bytes(&self.manifest_xml(), &self.content_bytes(), self.stored)
+    }
+}
+
+/// windows-1252 bytes 0x80..=0x9F (what the labels ISO-8859-1 / latin1 / windows-1252 all mean to an encoding-aware
+/// reader); 0 = the byte is a C1 control there
+const CP1252_HIGH: [u16; 32] = [
+    0x20AC, 0, 0x201A, 0x0192, 0x201E, 0x2026, 0x2020, 0x2021, 0x02C6, 0x2030, 0x0160, 0x2039, 0x0152, 0, 0x017D, 0, 0, 0x2018, 0x2019, 0x201C,
+    0x201D, 0x2022, 0x2013, 0x2014, 0x02DC, 0x2122, 0x0161, 0x203A, 0x0153, 0, 0x017E, 0x0178,
+];
+
+/// the windows-1252 byte of a character, if it has one (ASCII, U+00A0..=U+00FF, the 27 characters of 0x80..=0x9F)
+pub fn cp1252_byte(c: char) -> Option<u8> {
+    let u = c as u32;
+    if u < 0x80 || (0xA0..=0xFF).contains(&u) {
+        return Some(u as u8);
+    }
+    CP1252_HIGH.iter().position(|&x| x != 0 && x as u32 == u).map(|i| 0x80 + i as u8)
+}
+
+/// XML text in windows-1252: one byte per character the code page has, `&#xN;` for the others (legal inside
+/// attribute values and character data, which is where the generated documents have such characters)
+pub fn encode_single_byte(xml: &str) -> Vec<u8> {
+    let mut out = Vec::with_capacity(xml.len());
+    for c in xml.chars() {
+        match cp1252_byte(c) {
+            Some(b) => out.push(b),
+            None => out.extend_from_slice(format!("&#x{:X};", c as u32).as_bytes()),
+        }
+    }
+    out
 }
 
 /// zip the three parts of an ods package (`mimetype` first and stored)
 pub fn zip_parts(manifest: &str, content: &str, stored: bool) -> Vec<u8> {
+    zip_parts_bytes(manifest, content.as_bytes(), stored)
+}
+
+/// same with `content.xml` given as bytes (a document in another encoding than UTF-8)
+pub fn zip_parts_bytes(manifest: &str, content: &[u8], stored: bool) -> Vec<u8> {
     use zip::write::SimpleFileOptions;
     use zip::CompressionMethod;
     let mut z = zip::ZipWriter::new(Cursor::new(Vec::new()));
@@ -726,7 +770,7 @@ pub fn zip_parts(manifest: &str, content: &str, stored: bool) -> Vec<u8> {
     z.start_file("META-INF/manifest.xml", de).unwrap();
     z.write_all(manifest.as_bytes()).unwrap();
     z.start_file("content.xml", de).unwrap();
-    z.write_all(content.as_bytes()).unwrap();
+    z.write_all(content).unwrap();
     z.finish().unwrap().into_inner()
 }
 
